@@ -2,6 +2,7 @@ package props
 
 import (
 	"bytes"
+	"filippo.io/age/armor"
 	"fmt"
 	"io"
 	"os"
@@ -47,6 +48,12 @@ type c02Case struct {
 	Edit      c02Edit     `json:"edit"`
 	Plan      []int       `json:"plan"`
 	Delivery  hx.Delivery `json:"delivery"`
+	// ArmorWrap: the (edited) file travels as ASCII armor; TailWS/Tail: after
+	// the armor's END line come TailWS whitespace bytes and then foreign data
+	// ("garbage", "second-file": the same armored file once more)
+	ArmorWrap bool   `json:"armorWrap,omitempty"`
+	TailWS    int    `json:"tailWS,omitempty"`
+	Tail      string `json:"tail,omitempty"`
 	// CLI arm only: printable plaintext, decrypted with standard output on a terminal
 	TTY bool `json:"tty,omitempty"`
 	// CLI arm only: the edited file is a passphrase-protected identity file given with -i
@@ -169,9 +176,27 @@ func c02Check(c c02Case, st *stats.Run, count bool) error {
 	f, plain := c02Base(c.PlainLen, c.PlainSeed)
 	region, wantPlain, accept := c02Apply(f, plain, c.Edit, c.PlainSeed)
 	file := append(f.Header.Marshal(), region...)
+	if c.ArmorWrap {
+		text := refage.Armor(file)
+		if c.Tail != "" {
+			ws := strings.Repeat(" \n\t\r\n", c.TailWS/5+1)[:c.TailWS]
+			switch c.Tail {
+			case "second-file":
+				text += ws + text
+			default:
+				text += ws + "garbage after the armor"
+			}
+			accept = false
+		}
+		file = []byte(text)
+	}
 
 	src, _ := hx.NewReader(file, c.Delivery)
-	r, err := age.Decrypt(src, p.X25519Identity(0))
+	var in io.Reader = src
+	if c.ArmorWrap {
+		in = armor.NewReader(src)
+	}
+	r, err := age.Decrypt(in, p.X25519Identity(0))
 	var got []byte
 	var rerr error
 	if err != nil {
@@ -191,7 +216,8 @@ func c02Check(c c02Case, st *stats.Run, count bool) error {
 	}
 	if count {
 		nontrivial := !bytes.Equal(region, append(append([]byte{}, f.Nonce...), f.Payload...))
-		labels := []string{"edit=" + c.Edit.Kind, chunkLabel(c.PlainLen), released, fmt.Sprintf("spec-accepts=%v", accept)}
+		labels := []string{"edit=" + c.Edit.Kind, chunkLabel(c.PlainLen), released, fmt.Sprintf("spec-accepts=%v", accept), fmt.Sprintf("armored=%v", c.ArmorWrap), "armor-tail=" + c.Tail}
+		nontrivial = nontrivial || c.Tail != ""
 		if c.Edit.Kind == "flip" || c.Edit.Kind == "trunc" {
 			o := c.Edit.Off
 			if c.Edit.Kind == "trunc" {
@@ -203,7 +229,10 @@ func c02Check(c c02Case, st *stats.Run, count bool) error {
 			L int
 			S uint64
 			E c02Edit
-		}{c.PlainLen, c.PlainSeed, c.Edit}), labels...)
+			A bool
+			W int
+			T string
+		}{c.PlainLen, c.PlainSeed, c.Edit, c.ArmorWrap, c.TailWS, c.Tail}), labels...)
 		if nontrivial {
 			st.Sample("edit="+c.Edit.Kind+"/"+chunkLabel(c.PlainLen), c)
 		}
@@ -480,6 +509,9 @@ func c02CheckIdentityFile(c c02Case, st *stats.Run) error {
 	}
 	got, rerr := os.ReadFile(filepath.Join(dir, "out.dat"))
 	if accept {
+		if len(idPlain) > 16<<20 {
+			return nil // an identity file beyond the documented size limit may be refused as a whole
+		}
 		if res.code != 0 || !bytes.Equal(got, msg) {
 			return pbt.Failf("C02/valid-rejected", "age -d -i <valid passphrase-protected identity file>: exit %d (stderr %q, tty %q)", res.code, res.stderr, tty)
 		}
@@ -760,10 +792,14 @@ func TestC02(t *testing.T) {
 		s.St.Exhaust("age -d with standard output on a terminal: 6 printable plaintext lengths around the 512-byte mark x truncations, flip, extension", int64(m))
 		// a passphrase-protected identity file as the decrypted object
 		k := 0
-		for _, l := range []int{0, chunk + 5000, 2 * chunk} {
+		for _, l := range []int{0, chunk + 5000, 2 * chunk, 16<<20 + 70000} {
 			pl := len(c02IDPlain(l))
 			total := 16 + pl + 16*chunksOf(pl)
 			edits := []c02Edit{{Kind: "none"}, {Kind: "trunc", Len: total - 1}, {Kind: "flip", Off: total - 1, Bit: 3}, {Kind: "extend", Len: 1}}
+			if pl > 16<<20 {
+				// more than 256 chunks: damage confined to the chunks after the 256th
+				edits = append(edits, c02Edit{Kind: "trunc", Len: 16 + 256*refage.EncChunkSize + 100}, c02Edit{Kind: "flip", Off: 16 + 256*refage.EncChunkSize + 50, Bit: 1}, c02Edit{Kind: "trunc", Len: 16 + 256*refage.EncChunkSize})
+			}
 			if pl > chunk {
 				edits = append(edits, c02Edit{Kind: "trunc", Len: 16 + refage.EncChunkSize}, c02Edit{Kind: "trunc", Len: 16 + refage.EncChunkSize + 100}, c02Edit{Kind: "flip", Off: 16 + refage.EncChunkSize + 50, Bit: 1})
 			}
@@ -774,7 +810,41 @@ func TestC02(t *testing.T) {
 				k++
 			}
 		}
-		s.St.Exhaust("age -d -i <passphrase-protected identity file>: 3 identity-file sizes (1..3 chunks) x truncations at and after a chunk boundary, flips, extension", int64(k))
+		s.St.Exhaust("age -d -i <passphrase-protected identity file>: 4 identity-file sizes (1..3 chunks and 258 chunks, beyond the 16 MiB mark) x truncations at and after a chunk boundary, flips, extension", int64(k))
 	}, func(c c02Case) error { return c02CheckCLI(c, s.St) })
-	pbt.Rapid(s, "edits", s.N(4000, 25000), c02Gen, check)
+	// armored files: whatever follows the END line (after any amount of blank space) is an extension
+	pbt.Each(s, "edits-armored", func(yield func(c02Case)) {
+		n := 0
+		for _, l := range []int{0, 100, 3000, chunk + 1} {
+			for _, ws := range []int{0, 1, 2, 100, 1022, 1023, 1024, 1025, 1026, 2048, 4096, 5000} {
+				for _, tail := range []string{"garbage", "second-file"} {
+					for _, d := range []hx.Delivery{whole, {Mode: "pieces", Pieces: []int{1000}}} {
+						if s.Mine(n) {
+							yield(c02Case{PlainLen: l, PlainSeed: 14, Edit: c02Edit{Kind: "none"}, Plan: []int{4096}, Delivery: d, ArmorWrap: true, TailWS: ws, Tail: tail})
+						}
+						n++
+					}
+				}
+			}
+			total := 16 + l + 16*chunksOf(l)
+			for _, e := range []c02Edit{{Kind: "none"}, {Kind: "trunc", Len: total - 1}, {Kind: "trunc", Len: 16}, {Kind: "flip", Off: total - 1, Bit: 1}, {Kind: "extend", Len: 1}, {Kind: "extend", Len: 48}} {
+				if s.Mine(n) {
+					yield(c02Case{PlainLen: l, PlainSeed: 14, Edit: e, Plan: []int{-1}, Delivery: whole, ArmorWrap: true})
+				}
+				n++
+			}
+		}
+		s.St.Exhaust("armored files of 4 lengths: 0..5000 blank bytes after the END line (around the 1024 mark) followed by garbage or by a second armored file; truncated, flipped and extended payloads inside valid armor", int64(n))
+	}, check)
+	pbt.Rapid(s, "edits", s.N(4000, 25000), func(t *rapid.T) c02Case {
+		c := c02Gen(t)
+		if rapid.IntRange(0, 4).Draw(t, "armorWrap") == 0 {
+			c.ArmorWrap = true
+			if rapid.IntRange(0, 2).Draw(t, "armorTail") == 0 {
+				c.Tail = rapid.SampledFrom([]string{"garbage", "second-file"}).Draw(t, "tail")
+				c.TailWS = rapid.SampledFrom([]int{0, 1, 500, 1023, 1024, 1025, 3000}).Draw(t, "tailWS")
+			}
+		}
+		return c
+	}, check)
 }
